@@ -90,6 +90,9 @@ type Thread struct {
 	// Daemon threads may remain parked forever without that being a deadlock.
 	Daemon bool
 
+	// Parent is the thread that spawned this one (nil for harness-spawned).
+	Parent *Thread
+
 	s         *Sched
 	wake      chan wakeMsg
 	op        Op
@@ -164,6 +167,8 @@ type Sched struct {
 
 	// EagerLabels: threads whose label has one of these prefixes are eager.
 	EagerLabels []string
+	// EagerFn, if set, decides eagerness of a new thread instead.
+	EagerFn func(t *Thread) bool
 	// ExploreMapOrder: map iteration order becomes a choice point.
 	ExploreMapOrder bool
 	// ExploreSelect: which ready select case is taken becomes a choice point.
@@ -481,8 +486,11 @@ func (s *Sched) isEager(label string) bool {
 //
 //go:norace
 func (s *Sched) Spawn(label string, f func()) *Thread {
-	t := &Thread{ID: len(s.Threads) + 1, Label: label, s: s, wake: make(chan wakeMsg, 1)}
+	t := &Thread{ID: len(s.Threads) + 1, Label: label, s: s, wake: make(chan wakeMsg, 1), Parent: s.cur}
 	t.Eager = s.isEager(label)
+	if s.EagerFn != nil {
+		t.Eager = s.EagerFn(t)
+	}
 	t.op = Op{Kind: OpStart}
 	t.state = tParked
 	s.Threads = append(s.Threads, t)
@@ -650,6 +658,48 @@ func (s *Sched) run(t *Thread) {
 	if t2 != t {
 		panic(EngineError{fmt.Sprintf("thread %d parked while thread %d was running: an uncontrolled goroutine entered the runtime", t2.ID, t.ID)})
 	}
+}
+
+// Root returns the harness-spawned ancestor of t.
+//
+//go:norace
+func (t *Thread) Root() *Thread {
+	for t.Parent != nil {
+		t = t.Parent
+	}
+	return t
+}
+
+// RunScript is the S3 driver: env is a list of environment actions; by
+// default every action is taken at quiescence (cost 0); taking the next action
+// while threads can still run is a deviation (cost 1). Thread choices are
+// made by Step as usual.
+//
+//go:norace
+func (s *Sched) RunScript(env []func()) {
+	next := 0
+	for s.Steps < s.MaxStep {
+		en := s.enabledThreads()
+		if next >= len(env) {
+			if len(en) == 0 {
+				return
+			}
+			s.Step()
+			continue
+		}
+		if len(en) == 0 {
+			env[next]()
+			next++
+			continue
+		}
+		if s.NoPreempt || s.Choose(ChEnv, 2, 1, nil) == 0 {
+			s.Step()
+			continue
+		}
+		env[next]()
+		next++
+	}
+	s.HitCap = true
 }
 
 // RunQuiescent steps until no thread is enabled or the step cap is hit.
